@@ -298,6 +298,31 @@ pub fn run(seed: u64, tier: &str, w: &mut dyn Write) -> usize {
                 mid += 1;
                 n += 1;
             }
+            // length-field edits: the public-input count (a u64 read from the bytes) and every
+            // 8-byte window that holds a small number (candidate length / index fields)
+            let npis = b.proof.public_inputs.len();
+            let pi_off = base.len() - 8 * (npis + 1);
+            let mut offs: Vec<usize> = vec![pi_off];
+            let mut k = 0;
+            while k + 8 <= base.len() && offs.len() < 60 {
+                let v = u64::from_le_bytes(base[k..k + 8].try_into().unwrap());
+                if v > 0 && v < 65536 && k != pi_off { offs.push(k); k += 8 } else { k += 1 }
+            }
+            for off in offs {
+                let old = u64::from_le_bytes(base[off..off + 8].try_into().unwrap());
+                for newv in [old + 1, old.wrapping_sub(1), 1u64 << 32, 1u64 << 60, u64::MAX, 0] {
+                    if newv == old { continue; }
+                    let mut bs = base.clone();
+                    bs[off..off + 8].copy_from_slice(&newv.to_le_bytes());
+                    // announce the case first: an allocation failure aborts the process (not a panic)
+                    writeln!(w, "c18try {entry} {bi} {mid} # length-field edit at {off}: {old} -> {newv}").unwrap();
+                    w.flush().unwrap();
+                    let o = if entry == 2 { dec(bs) } else { cdec(bs) };
+                    writeln!(w, "c18 {entry} {bi} {mid} = {o}  # length-field edit at {off}: {old} -> {newv}").unwrap();
+                    mid += 1;
+                    n += 1;
+                }
+            }
         }
     }
     n
